@@ -28,8 +28,9 @@ func (t *traceRec) events() []Event {
 // startTraceRec installs a recorder for the lifetime of a workload; stop() removes it.
 func startTraceRec() (*traceRec, func()) {
 	t := &traceRec{}
-	rpc.VerifTrace, utils.VerifTrace = t.add, t.add
-	return t, func() { rpc.VerifTrace, utils.VerifTrace = nil, nil }
+	rpc.SetVerifHooks(t.add, nil)
+	utils.SetVerifHooks(t.add, nil)
+	return t, func() { rpc.SetVerifHooks(nil, nil); utils.SetVerifHooks(nil, nil) }
 }
 
 // rgReplay turns the setup.* events of ONE registry (the ids given, in order of first appearance)
